@@ -59,7 +59,8 @@ func MainIsolated(id, level string, watchdog time.Duration, body func(r *Run)) {
 		fmt.Fprintln(os.Stderr, err)
 		os.Exit(2)
 	}
-	defer os.RemoveAll(tmp)
+	// os.Exit skips deferred calls: every exit below goes through exit()
+	exit := func(code int) { os.RemoveAll(tmp); os.Exit(code) }
 	prog := filepath.Join(tmp, "progress")
 	errPath := filepath.Join(tmp, "stderr")
 	errF, _ := os.Create(errPath)
@@ -75,7 +76,7 @@ func MainIsolated(id, level string, watchdog time.Duration, body func(r *Run)) {
 	start := time.Now()
 	if err := cmd.Start(); err != nil {
 		fmt.Fprintln(os.Stderr, err)
-		os.Exit(2)
+		exit(2)
 	}
 	done := make(chan error, 1)
 	go func() { done <- cmd.Wait() }()
@@ -119,7 +120,7 @@ func MainIsolated(id, level string, watchdog time.Duration, body func(r *Run)) {
 		os.MkdirAll(filepath.Dir(dump), 0o755)
 		os.WriteFile(dump, []byte(stderrTail), 0o644)
 		fmt.Printf("INCONCLUSIVE property=%s watchdog of %s fired (goroutine dump: %s)\n", id, watchdog, dump)
-		os.Exit(2)
+		exit(2)
 	}
 	extraViol := 0
 	if code >= 10 && code <= 12 {
@@ -154,7 +155,7 @@ func MainIsolated(id, level string, watchdog time.Duration, body func(r *Run)) {
 			os.WriteFile(path, b, 0o644)
 			fmt.Printf("VIOLATION property=%s replay=%s\n", id, path)
 			patchEvidence(id, level, tier, seed, time.Since(start).Seconds(), map[string]any{"process_died": sig}, 1)
-			os.Exit(1)
+			exit(1)
 		}
 		code = 0
 	}
@@ -188,10 +189,10 @@ func MainIsolated(id, level string, watchdog time.Duration, body func(r *Run)) {
 		}
 		patchEvidence(id, level, tier, seed, time.Since(start).Seconds(), info, extraViol)
 		if extraViol > 0 {
-			os.Exit(1)
+			exit(1)
 		}
 	}
-	os.Exit(code)
+	exit(code)
 }
 
 func tail(path string, lines int) string {
